@@ -22,6 +22,7 @@ func checkC18(p *Prog, r *Report) {
 	c18Builders(p, r)
 	c18TagLookups(p, r)
 	c18ByNameLookups(p, t, r)
+	c18FilterValuesUsed(p, r, "R6v")
 	r.Assumes("struct tags are read with the same splitting rules as model.EEBusTags (',' then ':')",
 		"encoding/json and the SHIP JSON transformation are outside the analysis")
 }
